@@ -148,6 +148,8 @@ pub struct RunClass {
     pub timer_fired: u64,
     /// rewinds that covered a transaction whose latest validation had succeeded (stale Unconfirmed)
     pub stale_unconfirmed_rewinds: u64,
+    /// transactions with an erroring attempt between two successful ones
+    pub err_between_successes: u64,
 }
 
 pub fn classify(log: &[LoggedEv]) -> RunClass {
@@ -230,5 +232,24 @@ pub fn classify(log: &[LoggedEv]) -> RunClass {
         }
     }
     c.speculative_txs = seen.len() as u64;
+    {
+        // per transaction: sequence of attempt kinds
+        let mut seqs: HashMap<usize, Vec<u32>> = HashMap::new();
+        for l in log {
+            if let Ev::AttemptEnd { txid, kind, .. } = &l.ev {
+                seqs.entry(*txid).or_default().push(*kind);
+            }
+        }
+        for (_, s) in seqs {
+            let first_ok = s.iter().position(|k| *k == 0);
+            if let Some(f) = first_ok {
+                if let Some(e) = s[f..].iter().position(|k| *k >= 3) {
+                    if s[f + e..].iter().any(|k| *k == 0) {
+                        c.err_between_successes += 1;
+                    }
+                }
+            }
+        }
+    }
     c
 }
